@@ -612,6 +612,12 @@ func (e *SpecEnv) call(x *ast.CallExpr) T {
 			return App(SInt, "slen", a)
 		}
 		sfail("len() of sort %s", a.Sort)
+	case "cap":
+		a := e.tr(x.Args[0])
+		if a.Sort != SSlice {
+			sfail("cap() of sort %s", a.Sort)
+		}
+		return App(SInt, "scap", a)
 	case "forall", "exists":
 		// forall(i, lo, hi, body): lo <= i < hi ; forall(i, body) unbounded Int
 		iv, ok := x.Args[0].(*ast.Ident)
